@@ -192,11 +192,11 @@ func (k Keeper) GetSumOfAllGroupVotesAllRounds(ctx context.Context, id uint64) (
 	}
 
 	// process current dispute
+	// (a round nobody voted in has no counts; earlier rounds may still have voters)
 	voteCounts, err := k.VoteCountsByGroup.Get(ctx, id)
-	if err != nil {
-		return math.ZeroInt(), nil
+	if err == nil {
+		processVoteCounts(voteCounts)
 	}
-	processVoteCounts(voteCounts)
 
 	// process previous disputes
 	for _, roundId := range dispute.PrevDisputeIds {
